@@ -65,6 +65,13 @@ def run(chk, repo):
                    f"on {label} REF is read from {got} but the record is placed at [{st!r}, {en!r}) (given {[repr(a) for a in p.afacts]}): REF no longer "
                    "equals the gene sequence at the record's position", key=key, fn=f.qual)
             is_del = any(c == "self.allele == '-'" for c in conds)
+            # location form decides the event kind: a two-base location (start-end with nothing between) with an allele is an
+            # insertion between the two bases, whatever the allele length -> anchored on ONE reference base
+            if not is_del and any(c == 'alt_end - alt_start == 2' for c in conds):
+                w_ok = isinstance(ref, Obj) and '__lo__' in ref.fields and equal_mod(ref.fields['__hi__'] - ref.fields['__lo__'], Aff(1), p.afacts)
+                chk.ob('C14.a', f"{label}: two-base location = insertion, REF is the single anchor base", f.where, w_ok,
+                       f"on {label} the location has the insertion form (two adjacent bases) but REF spans {got}: the inserted bases replace reference bases instead of being inserted",
+                       key=key + '::ins-anchor', fn=f.qual)
             if is_del:
                 okd = isinstance(alt, Obj) and '__lo__' in alt.fields and \
                     (equal_mod(alt.fields['__lo__'], st, p.afacts) or equal_mod(alt.fields['__hi__'], en, p.afacts)) and \
